@@ -136,8 +136,11 @@ Print Assumptions c03_source_never_lost.
    when variational_cholesky_jitter changes"): Predict(default) then Predict(setting) or the
    reverse, SGPR and variational;
    13 get_fantasy_model without the finally block (before "get_fantasy_model restores the source
-   model when the copy raises"): KISS-GP, non-detached prediction + backward, then a fantasy
-   model -> the source predicts the prior;
+   model when the copy raises"), on the KISS-GP family as it was while the cached grid-kernel
+   matrix was still deep-copied with the model ([fam_kiss_cached_copy]): non-detached prediction
+   + backward, then a fantasy model -> the copy raises and the source predicts the prior; with
+   the finally block the same history is harmless; on the current KISS-GP family (the cached
+   matrix is not copied) the fantasy model simply succeeds;
    5 backward hook: observable is the status of the next non-detached backward).
    Point 1 (clearing on train(True)) alone is masked by point 2 for predictions, which is why 11
    removes both. *)
@@ -155,7 +158,9 @@ Theorem c03_dropped_invalidation_refutes :
   differs (points_without 12) fam_sgpr [OPredict 3] 0 = true /\
   differs (points_without 12) (fam_var true) [OPredict 0] 3 = true /\
   differs (points_without 12) (fam_var false) [OPredict 3; OPrior] 1 = true /\
-  differs (points_without 13) fam_kiss [OBackward; OFantasy] 0 = true /\
+  differs (points_without 13) fam_kiss_cached_copy [OBackward; OFantasy] 0 = true /\
+  differs all_on fam_kiss_cached_copy [OBackward; OFantasy] 0 = false /\
+  fst (snd (step all_on fam_kiss (run all_on fam_kiss init [OBackward]) OFantasy)) = ST_OK /\
   (bwd_status all_on fam_exact [OPredict 2; OBackward] = ST_OK /\
    bwd_status (points_without 5) fam_exact [OPredict 2; OBackward] = ST_ERR).
 Proof. exact dropped_refutes. Qed.
